@@ -17,7 +17,13 @@ def run_one(unit, rel, find, repl, idx):
     shutil.rmtree(root, ignore_errors=True)
     out = {"status": r["status"], "reason": r.get("reason", "")[:300]}
     if r["status"] == "fail":
-        out["killed_by"] = sorted(set(f"{f['fn']} [{f['kind']}] {(f.get('clause') or '')[:100]}" for f in r["fails"]))
+        known = check.load_known()
+        def is_known(f):
+            return any(check.match_known(known, k["property"], f) for k in known.get("findings", []) if k.get("status") == "known")
+        real = [f for f in r["fails"] if not is_known(f)]
+        out["killed_by"] = sorted(set(f"{f['fn']} [{f['kind']}] {(f.get('clause') or '')[:100]}" for f in real))
+        if not real:
+            out["status"] = "ok"   # only known findings fail: the mutant survives
     return out
 
 def run_all(unit):
@@ -28,6 +34,7 @@ def run_all(unit):
     for i, m in enumerate(json.load(open(p))):
         o = run_one(unit, m["file"], m["find"], m["replace"], i)
         o["name"] = m["name"]
+        if m.get("equivalent"): o["equivalent"] = m["equivalent"]
         res.append(o)
     return res
 
